@@ -763,6 +763,12 @@ func main() {
 	r.Rule("Headers: boundary values per field, all 256 flag bytes, seeded random, x3 SecurityFeatures variants, against an independent MS-CIFS 2.2.3.1 codec. Dispatch: all 256 command codes x reply flag (exhaustive), 3 flag backgrounds. Framing: every structure x value classes x buffer-size classes; equation len=32+1+2wc+2+bc; Marshal repeated 5 times. Non-trivial/distinct: distinct header wire images; (code, reply) pairs that dispatch to a structure; (structure, wc, bc/16) frames.")
 	r.Assume("dispatch expectation = the factory's own type for (code, reply) cross-checked with CamelCase(CommandCodeNames[code])+Request|Response (WRITE_RAW replies excepted)", "encode/decode failures of an individual structure's body are judged by C04, not here")
 	structs, reqT, respT := smbgen.Enumerate()
+	// race side run (./check builds this monitor with -race): only the workload in which goroutines
+	// use the library at the same time; the detector's reports are filed by Finish
+	if mon.SideRace() {
+		concurrentCallers(structs)
+		r.Finish()
+	}
 	headers()
 	dispatch(reqT, respT)
 	customFeatures()
